@@ -24,7 +24,11 @@ def history(method):
     op = st.one_of(st.tuples(st.just('step'), st.sampled_from(['sgd', 'sgd', 'adam'])),
                    st.tuples(st.just('step'), st.sampled_from(['sgd', 'adam'])),
                    st.tuples(st.just('opt'), st.one_of(*opts)),
-                   st.tuples(st.just('mode'), st.sampled_from(['train', 'eval'])))
+                   st.tuples(st.just('mode'), st.sampled_from(['train', 'eval'])),
+                   # which parameter group trains (a run-time flag, not part of the checkpoint
+                   # and not observable: the usual warm-up / search / fine-tune phases)
+                   st.tuples(st.just('phase'), st.sampled_from(
+                       ['train_net_only', 'train_nas_only', 'train_net_and_nas'])))
     return st.lists(op, min_size=0, max_size=7).map(lambda l: [list(o) for o in l])
 
 
@@ -110,6 +114,8 @@ def oracle(case) -> Result:
     for k, (op, arg) in enumerate(case['history']):
         if op == 'step':
             params = [p for p in A.parameters() if p.requires_grad]
+            if not params:
+                continue              # nothing trains in this phase (e.g. no NAS parameter)
             if arg not in opt_objs:
                 opt_objs[arg] = (torch.optim.SGD(params, lr=case['lr']) if arg == 'sgd'
                                  else torch.optim.Adam(params, lr=case['lr']))
@@ -117,6 +123,8 @@ def oracle(case) -> Result:
             torch.manual_seed(100 + k)
             y = ng.call(A, ad.probe(seed=20 + k))
             loss = (y ** 2).mean() + 1e-3 * sum(A.get_cost(n) for n in ad.specs)
+            if not loss.requires_grad:
+                continue              # only frozen (detached) masks are 'trainable' in this phase
             o.zero_grad()
             r = must(res, 'backward', loss.backward)
             o.step()
@@ -127,6 +135,9 @@ def oracle(case) -> Result:
             opts[name] = val
         elif op == 'mode':
             A.train(arg == 'train')
+        elif op == 'phase':
+            must(res, arg, getattr(A, arg))
+            opt_objs.clear()          # a new phase builds its optimizer over the new group
         if res.discrepancies:
             return res
     if any(not bool(torch.isfinite(p).all()) for p in A.parameters()):
@@ -198,7 +209,9 @@ CHECK = Check(
     rule=("Generated PIT / MPS (per-layer and per-channel) / SuperNet models with drawn masks / "
           "coefficients; history = 0..7 of {optimizer step (SGD or Adam on all trainable network "
           "and architectural parameters, lr in {0.01,0.05,0.2}, random data), option change "
-          "(discrete_cost / temperature / hard / gumbel), train() / eval()}; then torch.save -> "
+          "(discrete_cost / temperature / hard / gumbel), train() / eval(), train_net_only / "
+          "train_nas_only / train_net_and_nas (on the original only: trainability is run-time "
+          "state, not an observable)}; then torch.save -> "
           "torch.load of the state_dict, a fresh wrapper built from the pristine seed with the same "
           "constructor arguments and the same final Python-level options (the MPS temperature, "
           "kept in a buffer, is NOT re-applied), load_state_dict(strict=True), one forward; eval "
